@@ -228,7 +228,7 @@ def run(chk):
         "operators keeps the intra-site order and ascending site order, duplicate rows are merged by summing factors. Not decided: exactness "
         "of the bipartite / QR decomposition for all term tables, swap exactness (runtime combinatorics, floating point).")
     chk.assumptions = ["Quantity.as_au() is sign preserving", "numpy creates float64 arrays when no dtype is given"]
-    chk.rule("offset-sign", "offset -> factor: exactly one negation, appended on the all-identity row, only when non-zero", 4)
+    chk.rule("offset-sign", "offset -> constant of the term table: exactly one negation on the way (the table side is decided by term-table)", 2)
     chk.rule("algo-dispatch", "dispatch total over {qr, Hopcroft-Karp, Hungarian}; unknown -> assert False; defaults documented", 5)
     chk.rule("narrow-cast", "uint16 construction from a computed count is guarded by an assert against iinfo(uint16).max", 3)
     chk.rule("narrow-arith", "no arithmetic on entries of the uint16 term table before widening", 4)
@@ -252,17 +252,7 @@ def run(chk):
     v = C09.scalar_sym(ast.parse(t, mode="eval").body, {"OFFSET": s})
     chk.ob("offset-sign", "Mpo.__init__ passes -offset as the constant", sp.simplify(v + s) == 0, init.where, str(v).replace("s", "offset"), "-offset", line=call[0].lineno,
            detail="the operator must be sum_k c_k O_k MINUS the offset; the sign only matters for non-zero offsets")
-    tt = src.func(SYM, "_terms_to_table")
-    cname = tt.params()[2]
-    blk = [n for n in tt.node.body if isinstance(n, ast.If) and cname in unparse(n.test)]
-    okb = len(blk) == 1 and unparse(blk[0].test).replace(" ", "") in (f"{cname}!=0", f"notnp.allclose({cname},0)")
-    app = [c for n in blk for c in ast.walk(n) if isinstance(c, ast.Call) and unparse(c.func) == "factor_list.append"] if blk else []
-    val = C09.scalar_sym(app[0].args[0], {cname: s}) if app else None
-    chk.ob("offset-sign", "_terms_to_table appends the constant unchanged", okb and val is not None and sp.simplify(val - s) == 0, tt.where, str(val), cname, line=blk[0].lineno if blk else None)
-    rows = [unparse(x.value).replace(" ", "") for n in blk for x in ast.walk(n) if isinstance(x, ast.Assign) and unparse(x.targets[0]) == "table_entry"]
-    mods = [norm_stmt(x) for n in blk for x in ast.walk(n) if isinstance(x, ast.Assign) and isinstance(x.targets[0], ast.Subscript) and unparse(x.targets[0].value) == "table_entry"]
-    chk.ob("offset-sign", "constant sits on the all-identity row", rows == ["dummy_table_entry.copy()"] and not mods, tt.where, {"row": rows, "modified": mods}, "dummy_table_entry.copy(), unmodified",
-           line=blk[0].lineno if blk else None)
+    # that the constant is appended unchanged, last, on an all-identity row and only when non-zero is decided by the abstract run of _terms_to_table (term-table)
     # ---- dispatch
     one = src.func(SYM, "_construct_symbolic_mpo_one_site")
     tests = [unparse(n.test).replace(" ", "") for n in ast.walk(one.node) if isinstance(n, ast.If) and "algo" in unparse(n.test)]
@@ -311,12 +301,32 @@ def run(chk):
                 if not lens:
                     continue
                 guards = []
+
+                def is_u16_max(e, depth=0, fi=fi):
+                    """the expression is the largest 16-bit unsigned value, possibly through local or module-level names"""
+                    t_ = unparse(e).replace(" ", "")
+                    if t_ in ("np.iinfo(np.uint16).max", "numpy.iinfo(numpy.uint16).max", "np.iinfo('uint16').max", "65535", "2**16-1", "(1<<16)-1", "0xffff"):
+                        return True
+                    if isinstance(e, ast.Name) and depth < 3:
+                        from ..src import defs_of
+                        d = [x for x in defs_of(fi.node, e.id) if isinstance(x, ast.expr)]
+                        if len(d) == 1:
+                            return is_u16_max(d[0], depth + 1)
+                        if not d:
+                            md = [st.value for st in src.modules[fi.rel].body if isinstance(st, ast.Assign) and len(st.targets) == 1 and unparse(st.targets[0]) == e.id]
+                            if len(md) == 1:
+                                return is_u16_max(md[0], depth + 1)
+                    return False
                 for a_ in walk_no_nested(fi.node):
-                    if isinstance(a_, ast.Assert):
-                        t_ = unparse(a_.test).replace(" ", "")
-                        for L in lens:
-                            if f"len({L})" in t_ and ("iinfo(np.uint16).max" in t_ or "max_uint16" in t_) and ("<" in t_):
-                                guards.append(t_)
+                    if isinstance(a_, ast.Assert) and isinstance(a_.test, ast.Compare) and len(a_.test.ops) == 1:
+                        op_, lo, hi = a_.test.ops[0], a_.test.left, a_.test.comparators[0]
+                        if isinstance(op_, (ast.Gt, ast.GtE)):
+                            lo, hi = hi, lo
+                        elif not isinstance(op_, (ast.Lt, ast.LtE)):
+                            continue
+                        lo_t = unparse(lo).replace(" ", "")
+                        if any(f"len({L})" in lo_t for L in lens) and is_u16_max(hi):
+                            guards.append(unparse(a_.test))
                 n_cast += 1
                 chk.ob("narrow-cast", f"{fi.qual}: {norm_stmt(c, 70)}", bool(guards), fi.where, guards or "no assertion", f"assert len({sorted(lens)[0]}) <(=) np.iinfo(np.uint16).max",
                        line=c.lineno, detail=f"{fi.qual} stores a count into a 16-bit table without checking it fits: beyond 65535 operators the indices wrap around silently")
